@@ -71,6 +71,11 @@ def wstep (fixed : Bool) (s : WSt) (op : WOp) : WSt :=
 
 def wrun (fixed : Bool) (ops : List WOp) (s : WSt := {}) : WSt := ops.foldl (wstep fixed) s
 
+/-- A `conn.Write(buf)` on connection `id`, cut into frames the way `mux.write` does for a maximum
+    payload `mp` (`chunkSpec`, proved equal to the Go loop in `Lemmas/MuxCodec.lean: chunks_eq_spec`). -/
+def WOp.ofWrite (mp id : Nat) (buf : Bytes) (fail : Option (Nat × CallFail) := none) : WOp :=
+  ⟨(chunkSpec mp buf).map (Frame.mk id), fail⟩
+
 /-- every frame of every write has a header that fits: id and length below 2^32 -/
 def WOp.Bounded (op : WOp) : Prop :=
   ∀ f ∈ op.frames, f.id < 4294967296 ∧ f.payload.length < 4294967296
